@@ -263,6 +263,21 @@ def make_pricing(columns):
     return pricing
 
 
+def make_lazy_pricing(columns):
+    """A valid but lazy pricing call-back: the FIRST column (in list order) with reduced cost < -1e-9, not the best one.  Column
+    generation then needs about one iteration per column (work-volume family for the column-generation loops)."""
+    cols = [tuple(c) for c in columns]
+
+    def pricing(duals):
+        for c in cols:
+            rc = 1.0 - sum(y * a for y, a in zip(duals, c))
+            if rc < -1e-9:
+                return c, rc
+        return None, 0.0
+
+    return pricing
+
+
 # ---------------------------------------------------------------------------------- implementation runs
 def _canon_plan(sol):
     if sol is None:
@@ -292,6 +307,8 @@ def _seq(xs, how):
     xs = list(xs)
     if how == "tuple":
         return tuple(xs)
+    if how == "float":      # class X: integral floats in place of ints, negative zero for 0
+        return [float(x) if x else -0.0 for x in xs]
     if how == "range" and len(xs) >= 1 and all(b - a == xs[1] - xs[0] for a, b in zip(xs, xs[1:])) and (len(xs) == 1 or xs[1] != xs[0]):
         step = xs[1] - xs[0] if len(xs) > 1 else 1
         return range(xs[0], xs[-1] + (1 if step > 0 else -1), step)
@@ -326,7 +343,7 @@ def build_call(case):
         held["piece_sizes"] = sizes
     else:
         cols = [tuple(c) for c in case["columns"]]
-        base = make_pricing(cols)
+        base = make_lazy_pricing(cols) if form.get("pricing") == "lazy" else make_pricing(cols)
         if form.get("fresh"):
             def pricing(duals, _b=base):
                 c, rc = _b(duals)
@@ -342,6 +359,8 @@ def build_call(case):
             init = [tuple(c) for c in case["init"]]
         if form.get("fresh"):
             init = type(init)(type(c)(_fresh(a) for a in c) for c in init)
+        if form.get("entries") == "float":
+            init = type(init)(type(c)(float(a) for a in c) for c in init)
         kw.update(pricing_fn=pricing, initial_columns=init)
         held["initial_columns"] = init
     if form.get("cb") is not None:     # progress call-back: "never" stops nothing (returns a truthy non-True value), k stops at its k-th call
@@ -369,8 +388,37 @@ def run_impl(case):
     import solvor.bp as bp
     import solvor.cg as cg
 
+    import solvor.utils.pricing as pr
+
     demands_obj, kw, snapshot = build_call(case)
     rec = {"lp": [], "node": []}
+    tmo = case.get("timeout", TIMEOUT)
+    work = None
+    restore = []
+    if case.get("work"):     # work-volume counters (class W): pivots per simplex_phase call, knapsack table cells, pricing calls
+        work = {"max_pivots_per_phase": 0, "pivots": 0, "knapsack_cells": 0, "pricing_calls": 0, "_cur": 0}
+        o_piv, o_phase, o_knap_cg, o_knap_bp = pr._pivot, pr.simplex_phase, cg.knapsack_pricing, bp.knapsack_pricing
+
+        def piv(*a):
+            work["_cur"] += 1
+            work["pivots"] += 1
+            return o_piv(*a)
+
+        def phase(*a, **k):
+            work["_cur"] = 0
+            try:
+                return o_phase(*a, **k)
+            finally:
+                work["max_pivots_per_phase"] = max(work["max_pivots_per_phase"], work["_cur"])
+
+        def knap(sizes, capacity, values, eps, _o=o_knap_cg):
+            work["pricing_calls"] += 1
+            work["knapsack_cells"] = max(work["knapsack_cells"], int(capacity * 100) + 1)
+            return _o(sizes, capacity, values, eps)
+
+        pr._pivot, cg.simplex_phase, bp.simplex_phase, cg.knapsack_pricing, bp.knapsack_pricing = piv, phase, phase, knap, knap
+        restore = [(pr, "_pivot", o_piv), (cg, "simplex_phase", o_phase), (bp, "simplex_phase", o_phase),
+                   (cg, "knapsack_pricing", o_knap_cg), (bp, "knapsack_pricing", o_knap_bp)]
     if case["solver"] == "cg":
         orig = cg._solve_master_lp
 
@@ -381,7 +429,7 @@ def run_impl(case):
 
         cg._solve_master_lp = wrapped
         try:
-            res = guarded(cg.solve_cg, demands_obj, timeout=TIMEOUT, **kw)
+            res = guarded(cg.solve_cg, demands_obj, timeout=tmo, **kw)
         finally:
             cg._solve_master_lp = orig
     else:
@@ -398,9 +446,11 @@ def run_impl(case):
 
         bp._solve_node_lp = wrapped_node
         try:
-            res = guarded(bp.solve_bp, demands_obj, timeout=TIMEOUT, **kw)
+            res = guarded(bp.solve_bp, demands_obj, timeout=tmo, **kw)
         finally:
             bp._solve_node_lp = orig
+    for mod, name, o in restore:
+        setattr(mod, name, o)
     if res[0] == "hang":
         return {"fail": "hang"}
     if res[0] == "exc":
@@ -411,6 +461,9 @@ def run_impl(case):
            "iterations": int(r.iterations), "evaluations": int(r.evaluations)}
     if mutated:
         out["mutated"] = mutated
+    if work is not None:
+        work.pop("_cur")
+        out["work"] = work
     if rec["lp"]:
         cols, (x, y, obj) = rec["lp"][-1]
         out["pool"] = cols
@@ -559,7 +612,7 @@ def _corpus():
             if o.get("outside_quantifier"):
                 continue   # documented behaviour outside C17's quantifier: kept for the record, not judged
             for c in (o["cases"] if "cases" in o else [o]):
-                out.append({k: v for k, v in c.items() if k in ("kind", "solver", "sizes", "width", "demands", "max_iter", "max_nodes", "columns", "init", "form", "opt_known", "init_opt_known", "no_coq", "family")})
+                out.append({k: v for k, v in c.items() if k in ("kind", "solver", "sizes", "width", "demands", "max_iter", "max_nodes", "columns", "init", "form", "opt_known", "init_opt_known", "no_coq", "family", "work", "timeout")})
     return out
 
 
@@ -663,6 +716,12 @@ def run(ctx: Ctx):
                     "impl": {k: out.get(k) for k in ("status", "objective", "plan", "iterations")}}, 4)
         if case.get("family"):
             ctx.count("hard_family", case["family"])
+        if out.get("work"):
+            wk = dict(out["work"], cg_iterations=out.get("evaluations", 0) if case["solver"] == "bp" else out.get("iterations", 0),
+                      bb_nodes=out.get("iterations", 0) if case["solver"] == "bp" else 0)
+            mx = ctx.extra.setdefault("work_volume_max", {})
+            for k2, v2 in wk.items():
+                mx[k2] = max(mx.get(k2, 0), v2)
         if case.get("no_coq"):
             ctx.count("oracle_only", case.get("family", tag))
             continue
